@@ -699,3 +699,15 @@ pub fn start_watchdog(limit_s: u64) {
         }
     });
 }
+
+pub fn panic_msg(p: Box<dyn std::any::Any + Send>) -> String {
+    let mut s = if let Some(s) = p.downcast_ref::<&str>() {
+        s.to_string()
+    } else if let Some(s) = p.downcast_ref::<String>() {
+        s.clone()
+    } else {
+        "<non-string panic>".to_string()
+    };
+    s.truncate(100);
+    s
+}
